@@ -1,17 +1,34 @@
 #!/bin/sh
-# Build the framework from files on disk only (offline).
-set -e
+# Build the framework from files on disk only (offline). Warm-up: every check rebuilds what it
+# needs from /repo's working tree itself, so a failure here is reported but not fatal per target.
 cd "$(dirname "$0")"
 export GOFLAGS=-mod=mod GOPROXY=off
-(cd lean && lake build && lake build $(grep -o "om_[a-z]*" lakefile.toml))
+rc=0
+# 1. regenerate lean/Generated from /repo (needed before the proof modules that import it build)
 mkdir -p harness/bin
-cp /repo/go/go.sum harness/go.sum
-for d in harness/cmd/*/; do
-  n=$(basename "$d")
-  (cd harness && go build -tags verif -o bin/$n ./cmd/$n)
-done
 if [ -f tools/gen/go.mod ]; then
-  cp /repo/go/go.sum tools/gen/go.sum 2>/dev/null || true
-  (cd tools/gen && go build -o ../../harness/bin/gen .)
+  (cd tools/gen && go build -o ../../harness/bin/gen .) || rc=1
 fi
-echo setup-ok
+python3 - <<'PY' || rc=1
+import sys, os
+sys.path.insert(0, os.getcwd())
+from verifcheck import core
+ok = True
+for f in sorted(os.listdir("checks")):
+    if f.endswith(".py"):
+        cfg = core.load_config(f[:-3])
+        if cfg.get("regen") and not cfg.get("not_applicable"):
+            good, msg = core.regen(cfg, {})
+            if not good:
+                print("regen failed for", f, msg[-500:]); ok = False
+sys.exit(0 if ok else 1)
+PY
+# 2. Lean: models, theorems, executables of the registered checks
+(cd lean && lake build $(python3 ../tools/targets.py lake)) || rc=1
+# 3. Go drivers against /repo with hooks on
+cp /repo/go/go.sum harness/go.sum
+for n in $(python3 tools/targets.py drivers); do
+  (cd harness && go build -tags verif -o bin/$n ./cmd/$n) || rc=1
+done
+[ $rc = 0 ] && echo setup-ok || echo setup-had-failures
+exit $rc
